@@ -39,13 +39,20 @@ RULE = ("random interleavings (10-32 ops) of read / modify (append a log entry, 
         "torn writes: clients 0 and 1 read the same version and set different context keys, client 0's store_stage (transaction | auto-commit, "
         "without | with expected_phase) is parked before EVERY statement of that call at which its connection holds no write lock (before the "
         "SELECT at its head, and between that SELECT and the UPDATE) while client 1's complete write commits, or client 1 writes after the call, "
-        "on a stage with 0, 1 and 2 task rows (0 = only the stage-row version check guards the write)")
+        "on a stage with 0, 1 and 2 task rows (0 = only the stage-row version check guards the write); "
+        "multi-row transactions: client 0 holds a stage S (0, 1, 2 task rows) and a second stage T of the same workflow, a peer makes T stale (or not), "
+        "client 0 stores S and then T in ONE transaction (the second store loses its version check), and afterwards RE-USES its in-memory S for a "
+        "further write without re-reading, at each of the 4 positions inside the peer's read-modify-write of S (and once more after it), re-save "
+        "through the transaction or auto-commit path; plus the variant where the second 'row' is a task row of S bumped by an outside writer")
 ASSUMPTIONS = [
     "interleaving granularity is the store API call: SQLite admits one writer at a time, so statements of two store_stage "
     "calls cannot interleave between the first UPDATE and the commit (trusted: SQLite locking)",
     "in the random Mode-A suite (cas-mode-a) a read is one atomic call; the torn-read suite splits every read API at every "
     "SQL statement boundary with a complete committed write of another connection in between (statement = one "
     "sqlite3.Connection.execute call; a writer cannot commit INSIDE one SELECT: SQLite statement isolation, trusted)",
+    "multi-row suite: the single-row model has no second row: ops on T are not model steps, and a two-row transaction whose second row was "
+    "stale is NO step (no effect on S, the client's remembered version of S as before) — which is exactly the claim being tested; whether T is "
+    "stale is read from the T row through the separate admin connection",
     "torn-write suite: a writer is parked only where its connection is not in a transaction (Python's sqlite3 opens the transaction at the "
     "first INSERT/UPDATE/DELETE); at the statements after its first DML a second writer would block on SQLite's lock until the first commits "
     "(equivalent to running after it), those points are counted and not run",
